@@ -233,16 +233,17 @@ def cache_history(req, C):
     first or not), "inputs": {name: tensor spec}, "kwargs_order": [names]}.  Returns per step the cache counters
     before/after and the raw result."""
     from tensora import evaluate, tensor_method
-    from tensora.compile._porcelain import cachable_tensor_method as ctm
 
-    ctm.cache_clear()
+    from harness import bridge
+
+    bridge.clear_kernel_cache()
     out = []
     for st in req["steps"]:
         if st.get("clear"):
-            ctm.cache_clear()
+            bridge.clear_kernel_cache()
             out.append({"cleared": True})
             continue
-        before = ctm.cache_info()
+        before = bridge.kernel_cache_info()
         try:
             inputs = {n: C.tensor_from_stored(tuple(st["inputs"][n]["dims"]), st["inputs"][n]["fmt"], st["inputs"][n]["stored"])
                       for n in st["kwargs_order"]}
@@ -251,14 +252,14 @@ def cache_history(req, C):
                 res = evaluate(st["assignment"], fm[st["target"]], **inputs)
             else:
                 res = tensor_method(st["assignment"], fm)(**inputs)
-            after = ctm.cache_info()
+            after = bridge.kernel_cache_info()
             out.append({"raw": C.raw_of_tensor(res), "hits": after.hits - before.hits, "misses": after.misses - before.misses,
                         "currsize": after.currsize})
         except Exception as e:  # noqa: BLE001
-            after = ctm.cache_info()
+            after = bridge.kernel_cache_info()
             out.append({"raised": f"{type(e).__name__}: {e}"[:300], "hits": after.hits - before.hits,
                         "misses": after.misses - before.misses})
-    ctm.cache_clear()
+    bridge.clear_kernel_cache()
     return {"steps": out}
 
 
@@ -299,7 +300,6 @@ def main():
 
     bridge.ensure_tensora()
     from tensora import BackendCompiler, tensor_method
-    from tensora.compile._porcelain import cachable_tensor_method
 
     for line in sys.stdin:
         req = json.loads(line)
@@ -313,12 +313,12 @@ def main():
                 cap = req.get("capacity")
                 fn = None
                 with bridge.knobs(capacity=cap):
-                    cachable_tensor_method.cache_clear()
+                    bridge.clear_kernel_cache()
                     try:
                         fn = tensor_method(case["assignment"], dict(case["formats"]), BackendCompiler.llvm)
                     except Exception as e:  # noqa: BLE001
                         rep = {"refused": type(e).__name__, "message": str(e)[:200]}
-                cachable_tensor_method.cache_clear()
+                bridge.clear_kernel_cache()
                 if fn is not None:
                     args = {
                         nm: C.tensor_from_stored(C.tensor_dims(asg, case["sizes"], nm), case["formats"][nm], s)
